@@ -53,6 +53,12 @@ def check(run, prog, tier):
     run.rule("C16-F", "the open-system interface builds a hierarchy of the requested depth on every call", minimum=3)
     rule_F(run, prog)
     rule_G(run, prog)
+    run.rule("C16-H", "the hierarchy and its propagator read energies under internal units (reorganisation "
+                      "energies, Hamiltonian)", minimum=3)
+    from . import intunits
+    intunits.check_classes(run, prog, "C16-H", [HE + "KTHierarchy", HE + "KTHierarchyPropagator"], 3,
+                           "gamma, kBT and the time step are internal: the hierarchy no longer converges to the "
+                           "analytic solution")
 
 
 def rule_G(run, prog):
@@ -64,8 +70,11 @@ def rule_G(run, prog):
     init = prog.cls(HE + "KTHierarchy").methods["__init__"]
     sb = prog.cls("quantarhei.qm.liouvillespace.systembathinteraction.SystemBathInteraction")
     used = {}
-    for lp in [n for n in ast.walk(init.node) if isinstance(n, ast.For) and isinstance(n.target, ast.Name)]:
-        v = lp.target.id
+    loops = [(n.target.id, n) for n in ast.walk(init.node) if isinstance(n, ast.For) and isinstance(n.target, ast.Name)]
+    loops += [(g.target.id, n) for n in ast.walk(init.node)
+              if isinstance(n, (ast.ListComp, ast.GeneratorExp, ast.SetComp, ast.DictComp))
+              for g in n.generators if isinstance(g.target, ast.Name)]
+    for v, lp in loops:
         for c in ast.walk(lp):
             if isinstance(c, ast.Call) and isinstance(c.func, ast.Attribute) and norm(c.func.value) == "self.sbi" \
                     and c.args and all(isinstance(a, ast.Name) and a.id == v for a in c.args):
